@@ -24,6 +24,7 @@ class World:
             self.type_names[c.__module__ + '.' + c.__qualname__] = c
             self.type_names[c.__qualname__] = c
         self.register_constants()
+        self.register_gdb_stub()
 
     def register_constants(self):
         """module-level objects of repo classes that the code refers to by name"""
@@ -33,6 +34,17 @@ class World:
             for name in ('always', 'never'):
                 obj = getattr(m, name)
                 self.const_objects[id(obj)] = (z3.Int('const|core.matcher.' + name), obj)
+        except Exception:
+            pass
+
+    def register_gdb_stub(self):
+        try:
+            m = repo.load('backends.gdb_plugin.plugin')
+            g = m.gdb
+            for n in ('Thread', 'Value', 'Frame'):
+                k = getattr(g, n)
+                self.class_id(k)
+                self.type_names['gdb.' + n] = k
         except Exception:
             pass
 
